@@ -243,3 +243,20 @@ package jsonschema
 
 //@ contract structPropertiesOf(t)
 //@   requires kind: tkind(t) == 25
+
+// ---------------------------------------------------------------------------
+// json_pointer.go
+// ---------------------------------------------------------------------------
+
+//@ contract parseJSONPointer(ptr)
+//@   pure
+//@   ensures result1 == nil ==> newOrNil(result0)
+
+//@ contract lookupSchemaField(v, name)
+//@   pure
+
+//@ contract dereferenceJSONPointer(s, sptr)
+//@   pure
+//@   ensures[C17,C10] result1 == nil ==> true
+//@   loop "range segments"
+//@     invariant valid: kind(v) != 0
